@@ -994,6 +994,156 @@ def run_q2d_and_der(case, seed, R):
 
 
 # =================================================================================================
+# coordinate argument forms: every derivative routine, one point, every way of writing that point
+
+AF_COEF = [0.37, -1.21, 0.58, 0.93, -0.45]          # non-integer coefficients (an integer work array would truncate them)
+AF_ST = {'c': 3, 'ab': [[2, 3], [3, 2]]}
+
+
+def af_routines():
+    """name -> (callable(*primary, *secondary), number of primary coordinates, accepts python scalars)."""
+    cs = list(AF_COEF)
+    cm0 = [0.37, -1.21, 0.58]
+    ams = [[0.93, -0.45], [0.31, 0.77, -0.62]]
+    bms = [[-0.28, 0.66, 0.12], [0.54, -0.83]]
+    out = {}
+    for name, fam in FAMS.items():
+        out[f'{name}_der'] = (fam['der'], 'n,x,*par', True)
+        out[f'{name}_der_seq'] = (fam['seq'], 'ns,x,*par', False)
+    out['zernike_nm_der'] = (P.zernike_nm_der, 'n,m,r,t', True)
+    out['jacobi_sum_clenshaw_der'] = (lambda x, a, b, j: P.jacobi_sum_clenshaw_der(cs, a, b, x, j=j), 'x', True)
+    out['clenshaw_qbfs_der'] = (lambda x, j: qpoly.clenshaw_qbfs_der(cs, x, j=j), 'x', True)
+    out['clenshaw_q2d_der'] = (lambda x, m, j: qpoly.clenshaw_q2d_der(cs, m, x, j=j), 'x', True)
+    out['compute_z_zprime_Qbfs'] = (lambda u: qpoly.compute_z_zprime_Qbfs(cs, u, u * u), 'u', True)
+    out['compute_z_zprime_Qcon'] = (lambda u: qpoly.compute_z_zprime_Qcon(cs, u, u * u), 'u', True)
+    out['compute_z_zprime_Q2d'] = (lambda u, t: qpoly.compute_z_zprime_Q2d(cm0, ams, bms, u, t), 'u,t', True)
+    out['sphere_sag_der'] = (lambda rho, c: S.sphere_sag_der(c, rho), 'rho', True)
+    out['conic_sag_der'] = (lambda rho, c, k: S.conic_sag_der(c, k, rho), 'rho', True)
+    out['der_direction_cosine_spheroid'] = (lambda rho, c, k: S.der_direction_cosine_spheroid(c, k, rho), 'rho', True)
+    out['off_axis_conic_der'] = (lambda r, t, c, k, dx, dy: S.off_axis_conic_der(c, k, r, t, dx, dy), 'r,t', True)
+    out['off_axis_conic_sigma_der'] = (lambda r, t, c, k, dx, dy: S.off_axis_conic_sigma_der(c, k, r, t, dx, dy), 'r,t', True)
+    out['Q2d_and_der'] = (lambda x, y, c, k, dx, dy: S.Q2d_and_der(np.array(cm0) * 0.05, [np.array(a) * 0.05 for a in ams], [np.array(b) * 0.05 for b in bms],
+                                                                      x, y, 12.0, c, k, dx, dy), 'x,y', True)
+    for k_, v in out.items():
+        try:
+            v[0].__qualname__ = k_
+        except Exception:   # noqa
+            pass
+    return out
+
+
+AF = None
+# forms left out: zernike_nm (the value routine) itself raises for integer ARRAY radial coordinates when n_j = 0 (in-place float * int), and an
+# array of radial coordinates made of the integers 0 and 1 only is not a plausible input; integer scalars r = 0, r = 1 are kept
+AF_SKIP = {'zernike_nm_der': ('int64array', 'int32array')}
+
+AF_FORMS = [  # name, constructor from a python float, needs an integer-valued point, eps, is-scalar form
+    ('pyfloat', float, False, EPS, True),
+    ('npfloat64', np.float64, False, EPS, True),
+    ('npfloat32', np.float32, False, EPS32, True),
+    ('array0d', lambda v: np.array(v, dtype=np.float64), False, EPS, False),
+    ('float32array', lambda v: np.array([v], dtype=np.float32), False, EPS32, False),
+    ('pyint', lambda v: int(v), True, EPS, True),
+    ('npint64', lambda v: np.int64(v), True, EPS, True),
+    ('int64array', lambda v: np.array([int(v)], dtype=np.int64), True, EPS, False),
+    ('int32array', lambda v: np.array([int(v)], dtype=np.int32), True, EPS, False),
+]
+
+
+def af_flat(out):
+    """Every float of an output (array / scalar / tuple of those) as one 1-D float64 vector, or None if it is not numeric."""
+    try:
+        parts = out if isinstance(out, (tuple, list)) else (out,)
+        return np.concatenate([np.asarray(o, dtype=np.float64).ravel() for o in parts])
+    except Exception:   # noqa
+        return None
+
+
+def run_argforms(case, seed, R):
+    global AF
+    if AF is None:
+        AF = af_routines()
+    name, pt, pre, post, nprim = case['routine'], case['pt'], case['pre'], case['post'], case['nprim']
+    f, _, scalars_ok = AF[name]
+    prim, sec = pt[:nprim], pt[nprim:]
+    integer = all(float(v).is_integer() for v in prim)
+
+    def call(conv, scalar, sig, vals=None):
+        vals = prim if vals is None else vals
+        coords = [conv(v) for v in vals]
+        # secondary coordinates (azimuth) follow the container kind of the form, always in floating point
+        coords += [float(v) if scalar else (np.array(v, dtype=np.float64) if np.ndim(coords[0]) == 0 else np.array([v], dtype=np.float64)) for v in sec]
+        return R.call(f, *pre, *coords, *post, sig=sig)
+
+    ref = af_flat(call(lambda v: np.array([v], dtype=np.float64), False, f'{name}:form=float64array:exception'))
+    if ref is None or not np.all(np.isfinite(ref)):
+        if not R.violations:
+            R.violation(f'{name}:form=float64array', 'the float64 one-element-array call did not return finite numbers')
+        return
+    for fname, conv, need_int, eps, scalar in AF_FORMS:
+        if need_int and not integer:
+            continue
+        if fname in AF_SKIP.get(name, ()):
+            continue
+        if scalar and not scalars_ok and fname in ('pyfloat', 'pyint'):
+            continue      # *_der_seq document an ndarray coordinate (they read x.shape / x.dtype): python numbers are not in their domain
+        sig = f'{name}:form={fname}'
+        want = ref
+        if eps == EPS32:
+            want = af_flat(call(lambda v: np.array([float(np.float32(v))], dtype=np.float64), False, f'{name}:form=float64array:exception'))
+            if want is None:
+                continue
+        got = call(conv, scalar, sig + ':exception')
+        if got is FAILED:
+            continue
+        g = af_flat(got)
+        if not R.expect(g is not None and g.shape == want.shape, sig + ':shape', f'{name} with the coordinate written as {fname} returns {type(got).__name__} of a different size than for a one-element float64 array'):
+            continue
+        scale = float(np.max(np.abs(want))) if want.size else 0.0
+        close(R, g, want, np.abs(want) + scale + 1e-300, sig, f'{name}{tuple(pre)} at {prim} written as {fname} vs the same point as a float64 array', eps=eps)
+    R.nontrivial()
+    R.outcome('int-point' if integer else 'generic-point')
+
+
+def argform_cases(q):
+    cases = []
+
+    def add(routine, pre, pts, post=(), nprim=1):
+        for pt in pts:
+            cases.append({'routine': routine, 'pre': list(pre), 'post': list(post), 'pt': list(pt), 'nprim': nprim})
+    fps_small = [('legendre', []), ('cheby1', []), ('cheby2', []), ('cheby3', []), ('cheby4', []), ('hermite_He', []), ('hermite_H', []),
+                 ('laguerre', [0.5]), ('jacobi', [0, 0]), ('jacobi', [-0.5, 0.5]), ('jacobi', [2.5, 0.3]), ('jacobi', [0, 4])]
+    for fam, par in fps_small:
+        pts = [[0.0], [1.0], [2.0], [0.3]] if fam == 'laguerre' else [[-1.0], [0.0], [1.0], [0.3]]
+        for n in (0, 1, 2, 5):
+            add(f'{fam}_der', [n], pts, par)
+        for ns in ([0], [1], [0, 1, 2, 5]):
+            add(f'{fam}_der_seq', [ns], pts, par)
+    for n, m in ((0, 0), (1, 1), (1, -1), (2, 0), (3, 1), (4, -2), (5, 3)):
+        add('zernike_nm_der', [n, m], [[0.0, 0.7], [1.0, 0.7], [0.4, 0.7]])
+    for a, b in ((0, 0), (0, 4), (-0.5, 0.5), (2.5, 0.3)):
+        for j in (1, 2):
+            add('jacobi_sum_clenshaw_der', [], [[-1.0], [0.0], [1.0], [0.3]], [a, b, j])
+    for j in (1, 2):
+        add('clenshaw_qbfs_der', [], [[0.0], [1.0], [0.36]], [j])
+        for m in (1, 2, 3):
+            add('clenshaw_q2d_der', [], [[0.0], [1.0], [0.36]], [m, j])
+    for r in ('compute_z_zprime_Qbfs', 'compute_z_zprime_Qcon'):
+        add(r, [], [[0.0], [1.0], [0.6]])
+    add('compute_z_zprime_Q2d', [], [[0.0, 0.7], [1.0, 0.7], [0.6, 0.7]])
+    rpts = [[0.0], [1.0], [5.0], [2.5]]
+    for c, k in ((1 / 50, -0.6), (-1 / 80, 0)):
+        add('sphere_sag_der', [], rpts, [c])
+        add('conic_sag_der', [], rpts, [c, k])
+        add('der_direction_cosine_spheroid', [], rpts, [c, k])
+        for dx, dy in ((0, 0), (5, 0), (0, -3)):
+            add('off_axis_conic_der', [], [[v[0], 0.7] for v in rpts], [c, k, dx, dy])
+            add('off_axis_conic_sigma_der', [], [[v[0], 0.7] for v in rpts], [c, k, dx, dy])
+            add('Q2d_and_der', [], [[0.0, 0.0], [1.0, 0.0], [3.0, 4.0], [2.5, 1.25]], [c, k, dx, dy], nprim=2)
+    return cases
+
+
+# =================================================================================================
 # plan
 
 def plan(tier, seed):
@@ -1013,6 +1163,7 @@ def plan(tier, seed):
     high_cases = [{'fam': f, 'par': p, 'n': n} for n in (HORD if q else HORD + [129, 300, 513]) for f, p in hfp]
     dt_cases = [{'fam': f, 'par': p, 'n': n} for n in range(5) for f, p in fps]
     zdt_cases = [{'n': n, 'm': m, 'norm': True} for n in range(5) for m in range(-n, n + 1, 2)]
+    af_cases = argform_cases(q)
     nms = [(n, m) for n in range(ZN + 1) for m in range(-n, n + 1, 2)]
     z_cases = [{'n': n, 'm': m, 'norm': norm} for (n, m) in nms for norm in (True, False)]
     nms6 = [[n, m] for n in range(7) for m in range(-n, n + 1, 2)]
@@ -1081,6 +1232,12 @@ def plan(tier, seed):
                   '(values are judged, the dtype of the result is not)', reset=reset_all),
         ScopeUnit('zernike_dtype', zdt_cases, run_zernike_dtype,
                   'every (n,m), n <= 4: zernike_nm_der with integer (int64, int32), float32 and Python / numpy integer scalar radial coordinates r in {0, 1}', reset=reset_all),
+        ScopeUnit('argforms', af_cases, run_argforms,
+                  'every derivative routine of the property x a few orders/parameters x special points (x = -1, 0, 1; u, usq = 0, 1; rho = 0, 1, 5) and one generic point x every way of '
+                  'writing the coordinate {python float, numpy float64 / float32 scalar, 0-d array, float32 array; for integer-valued points also python int, numpy int64 scalar, '
+                  'int64 / int32 array}, non-integer coefficients: the result must equal the result for the same point given as a one-element float64 array (eps of the coarser type); '
+                  'python numbers are left out for *_der_seq, whose documented coordinate is an ndarray (they read x.shape); integer ARRAY radial coordinates are left out for '
+                  'zernike_nm_der (zernike_nm itself rejects them for n_j = 0)', reset=reset_all),
         ScopeUnit('high_order', high_cases, run_high_order,
                   f'threshold orders n in {HORD} (overflow of n!, gamma, Pochhammer at 171) x Legendre, Chebyshev 1-4, Jacobi (alpha,beta) in {HJAC}: fam_der (array, scalar) and '
                   f'fam_der_seq ([n] and [0,1,n-1,n]) at {len(HPTS)} interior points against the trigonometric closed forms of T_n\', U_n\', V_n\', W_n\' and against the value routine '
